@@ -37,6 +37,9 @@ type c13Params struct {
 	// the handshake; copies of the client's last flight are delivered to it again Dwell times while the callers
 	// are at work (the endpoint answers them by re-sending its own last flight from inside Read)
 	Dwell int `json:"dwell,omitempty"`
+	// SmallRead (dtlcp, established): reader 0 uses Read with a buffer smaller than a datagram (the rest of the
+	// datagram comes with its next Read), the other readers use ReadFrom; all read until nothing arrives any more
+	SmallRead bool `json:"small_read,omitempty"`
 	// HSBy (close-hs): which call starts the handshake that Close races with: handshake | read | write
 	HSBy string `json:"hs_by,omitempty"`
 	Role string `json:"role,omitempty"` // close-hs: client | server end under test
@@ -45,7 +48,7 @@ type c13Params struct {
 func (c13) ID() string    { return "C13" }
 func (c13) Level() string { return "exploration" }
 func (c13) Rule() string {
-	return "each case draws a scenario (established connection / first use racing with the handshake / Close racing with in-flight calls / Close against Writes blocked in a full transport / a write deadline set by another task expiring while Writes are blocked, then cleared / Close racing with a handshake in flight whose peer is silent / pa adapter first use; on dtlcp also the server end while copies of the client's last flight make it re-send its own from inside Read), stack (tlcp, dtlcp with ReadFrom+WriteTo), suite, 1-3 writer tasks, 1-3 reader tasks, 0-2 auxiliary tasks (ConnectionState, deadline setters, extra Handshake callers) on ONE connection, and a seeded schedule: the vs kernel decides every pre-emption at every mutex operation, atomic operation and transport call of the library. Built with -race; the kernel's hand-over is invisible to the race detector, so an unsynchronised access pair is reported whatever the distance between the two accesses. Oracle: no race report, no deadlock, every Handshake caller sees the same result, every successful Write appears contiguously and exactly once in the peer's stream, frames delivered to concurrent readers are exactly the frames sent (no loss, no duplicate), after Close every pending call returns. distinct = distinct schedule traces; non-trivial = at least two tasks were in calls on the connection at the same time (kernel counts lock contention / interleaved steps)"
+	return "each case draws a scenario (established connection / first use racing with the handshake / Close racing with in-flight calls / Close against Writes blocked in a full transport / a write deadline set by another task expiring while Writes are blocked, then cleared / Close racing with a handshake in flight whose peer is silent / pa adapter first use; on dtlcp also one reader using Read with a buffer smaller than a datagram next to ReadFrom readers, and the server end while copies of the client's last flight make it re-send its own from inside Read), stack (tlcp, dtlcp with ReadFrom+WriteTo), suite, 1-3 writer tasks, 1-3 reader tasks, 0-2 auxiliary tasks (ConnectionState, deadline setters, extra Handshake callers) on ONE connection, and a seeded schedule: the vs kernel decides every pre-emption at every mutex operation, atomic operation and transport call of the library. Built with -race; the kernel's hand-over is invisible to the race detector, so an unsynchronised access pair is reported whatever the distance between the two accesses. Oracle: no race report, no deadlock, every Handshake caller sees the same result, every successful Write appears contiguously and exactly once in the peer's stream, frames delivered to concurrent readers are exactly the frames sent (no loss, no duplicate), after Close every pending call returns. distinct = distinct schedule traces; non-trivial = at least two tasks were in calls on the connection at the same time (kernel counts lock contention / interleaved steps)"
 }
 func (c13) Components() (real, stub []string) {
 	return []string{"tlcp.Conn, dtlcp.Conn, pa.ProtocolSwitchServerConn (instrumented): all locking and atomics real (sync.Mutex via TryLock loop)", "Go race detector"},
@@ -96,6 +99,12 @@ func drawC13(src *vs.Src) *c13Params {
 	}
 	if p.Stack == DTLCP && p.Scenario == "established" && src.Bool(1, 2) {
 		p.Dwell = 1 + src.Intn(3)
+	} else if p.Stack == DTLCP && p.Scenario == "established" && src.Bool(1, 2) {
+		p.SmallRead = true
+		if p.Readers < 2 {
+			p.Readers = 2
+		}
+		p.Inbound = 4 + src.Intn(8)
 	}
 	if p.Scenario == "close-blocked" && src.Bool(1, 3) {
 		// the write deadline, set by another task, expires while Writes are blocked in a full transport; it is
@@ -297,17 +306,30 @@ func (c13) Run(c *Case, src *vs.Src) *Result {
 		for i := 0; i < p.Readers; i++ {
 			t := newTask(fmt.Sprintf("ut-reader%d", i))
 			readers = append(readers, t)
+			small := p.SmallRead && i == 0
 			w.Go(t.Name, func() {
 				defer func() { t.Done = true }()
 				buf := make([]byte, 1024)
+				if small {
+					buf = make([]byte, 20)
+				}
 				for {
-					if p.Scenario != "close-race" && takeInbound(&inboundLeft) == false {
+					if p.Scenario != "close-race" && !p.SmallRead && takeInbound(&inboundLeft) == false {
 						return
 					}
 					if p.Stack == DTLCP {
 						utEP.SetReadDeadline(vs.Now().Add(5 * time.Second))
 					}
-					n, err := ut.Read(buf)
+					var n int
+					var err error
+					if small {
+						n, err = utEP.Read(buf)
+					} else {
+						n, err = ut.Read(buf)
+					}
+					if p.SmallRead && err != nil && isTimeout(err) {
+						return // nothing arrives any more
+					}
 					if n > 0 {
 						t.Got = append(t.Got, append([]byte(nil), buf[:n]...))
 					}
@@ -468,6 +490,21 @@ func (c13) Run(c *Case, src *vs.Src) *Result {
 		}
 	}
 	// --- readers: frames delivered exactly once
+	if p.SmallRead && len(readers) > 0 {
+		// the small-buffer reader gets every datagram it started in pieces: put them together again
+		var all []byte
+		for _, f := range readers[0].Got {
+			all = append(all, f...)
+		}
+		readers[0].Got = nil
+		for len(all) >= c13FrameLen {
+			readers[0].Got = append(readers[0].Got, all[:c13FrameLen])
+			all = all[c13FrameLen:]
+		}
+		if len(all) > 0 {
+			r.Violate("reader-data", sigp+" small-read-tail", "the reader that uses Read with a 20-byte buffer ended with %d bytes that do not complete a datagram", len(all))
+		}
+	}
 	gotIn := map[int]int{}
 	for ri, t := range readers {
 		for _, f := range t.Got {
